@@ -22,7 +22,7 @@ SPEC_SLOT = None
 HDR = '''from typing import Any
 from bloqade.geometry.dialects import grid
 from kirin.dialects import ilist
-from bloqade.shuttle import spec
+from bloqade.shuttle import filled, spec
 from bloqade.shuttle.prelude import move
 from harness.props import c10 as _C10
 
@@ -288,6 +288,8 @@ def kern(b: bool, n: int):
     spv = grid.sub_grid(sp, [0], [0])
     al = a
     alv = al[0:1, 0:1]
+    fz = filled.vacate(a, [(0, 0)])
+    fb = filled.fill(spec.get_static_trap(zone_id="B"), [(0, 0)])
     if b:
         x = spec.get_static_trap(zone_id="B")
     else:
@@ -306,7 +308,7 @@ def kern(b: bool, n: int):
     for k in range(n):
         u = away()
     t = u[:, 0:1]
-    return (x, y, w, v, u, t, p, q, c, cv, c2, cw, sk, sk2, pk, pkv, sp, spv, al, alv)
+    return (x, y, w, v, u, t, p, q, c, cv, c2, cw, sk, sk2, pk, pkv, sp, spv, al, alv, fz, fb)
 '''
 
 
